@@ -145,6 +145,7 @@ pub fn run(tier: Tier, seed: u64) -> Report {
     }
     let mut p = GenParams::default();
     p.max_clients = 4;
+    p.empty_permille = 30;
     p.max_ops = tier.pick(36, 90);
     p.min_ops = 4;
     p.foreign_pct = 130; // relative weight: about a third of all id arguments
@@ -176,7 +177,7 @@ impl MinClients for proptest::strategy::BoxedStrategy<HCase> {
                                     *parent = IdRef::Latest(1);
                                 }
                             }
-                            Op::GetChild { c, .. } | Op::AddSnapshot { c, .. } | Op::GetSnapshot { c } | Op::AgeSnapshot { c, .. } => *c = 1,
+                            Op::GetChild { c, .. } | Op::AddSnapshot { c, .. } | Op::GetSnapshot { c } | Op::AgeSnapshot { c, .. } | Op::NewClient { c } => *c = 1,
                             Op::Reopen => {}
                         }
                     }
